@@ -15,6 +15,20 @@
 //!  * header-level `params` never contain the names a header stores in dedicated fields
 //!    (`tag`; `expires`/`reason`/`retry-after`); `Other(..)` variants never carry a well-known name
 //!  * parameter names are non-empty
+//!  * message header values (sub `message`) are TEXT-UTF8-TRIM: no CR/LF and no SIP LWS (SP / HTAB) at either
+//!    end. Only SIP LWS is trimmed by the generator: UTF8-NONASCII characters that Unicode counts as white space
+//!    (NBSP, NEL, U+2000.., U+2028/9, U+3000 ...) are ordinary text and are generated at the very start / end
+//!    of a value (and as a whole value) on purpose.
+//!
+//! Typed headers (sub `header`) are printed on three paths: (1) through `Headers::insert_type`
+//! (`PrintCtx::default()`), as one `Vec` or item by item; (2) each item directly with `print_ctx` for a
+//! message with a method; (3) the whole list through the public `ExtendValues` API (`Vec<H>::create_values(ctx)`,
+//! or `create_values(ctx)` for the first item and `extend_values(ctx, ..)` / a pushed line of its own for each
+//! later item, chosen by `layout`) with the print context of a message with a method, so that the method
+//! dependent Table 1 column (REGISTER Contact vs dialog Contact) is demanded of EVERY item of a list whatever
+//! its position. On each path: re-parse item by item, field-wise diff against the generated mirror under
+//! Table 1, second reading of the text with ref_sip, fixpoint. Not asserted: how items are spread over header
+//! lines, and the result of `extend_values` of single-valued headers.
 #![allow(clippy::type_complexity)]
 
 use crate::engine::*;
@@ -25,7 +39,7 @@ use proptest::collection::vec;
 use proptest::prelude::*;
 use proptest::sample::select;
 use serde::{Deserialize, Serialize};
-use sip_types::header::headers::Headers;
+use sip_types::header::headers::{Headers, OneOrMore};
 use sip_types::header::typed::*;
 use sip_types::header::{ExtendValues, HeaderParse};
 use sip_types::host::{Host, HostPort};
@@ -1622,8 +1636,13 @@ pub struct HeaderCase {
     h: HeaderC,
     /// list headers: insert the items one by one instead of as one Vec
     one_by_one: bool,
-    /// method of the message the header is printed for (direct print path)
+    /// method of the message the header is printed for (direct print path and ExtendValues-with-context path)
     method: MethodCtxC,
+    /// ExtendValues-with-context path, list headers: bit i-1 set = item i (i >= 1) starts a header line of its own
+    /// (`create_values(ctx)` pushed onto the `OneOrMore`), clear = it is appended with `extend_values(ctx, ..)`.
+    /// 0 together with `one_by_one == false` builds everything with one `Vec<H>::create_values(ctx)` call.
+    #[serde(default)]
+    layout: u8,
 }
 
 // =============================================================================================
@@ -1861,11 +1880,15 @@ fn header(sz: Sz) -> BoxedStrategy<HeaderC> {
     .boxed()
 }
 
+fn layout() -> BoxedStrategy<u8> {
+    prop_oneof![3 => Just(0u8), 3 => 0u8..8, 1 => any::<u8>()].boxed()
+}
+
 fn header_case_small() -> BoxedStrategy<HeaderCase> {
-    (header(SMALL), any::<bool>(), method_ctx()).prop_map(|(h, one_by_one, method)| HeaderCase { h, one_by_one, method }).boxed()
+    (header(SMALL), any::<bool>(), method_ctx(), layout()).prop_map(|(h, one_by_one, method, layout)| HeaderCase { h, one_by_one, method, layout }).boxed()
 }
 fn header_case_large() -> BoxedStrategy<HeaderCase> {
-    (header(LARGE), any::<bool>(), method_ctx()).prop_map(|(h, one_by_one, method)| HeaderCase { h, one_by_one, method }).boxed()
+    (header(LARGE), any::<bool>(), method_ctx(), layout()).prop_map(|(h, one_by_one, method, layout)| HeaderCase { h, one_by_one, method, layout }).boxed()
 }
 
 // =============================================================================================
@@ -1880,6 +1903,10 @@ trait HK {
     fn build(m: &Self::M) -> Self::H;
     fn back(h: &Self::H, orig: &Self::M) -> Self::M;
     fn diff(orig: &Self::M, got: &Self::M, ctx: Ctx) -> Diffs;
+    /// the Table 1 column that applies when the header is printed for a message with the given method
+    fn method_ctx(_m: &MethodCtxC) -> Ctx {
+        Self::DEFAULT_CTX
+    }
     /// print the header directly for a message with the given method (headers that implement Print
     /// and contain a URI); returns the text and the Table 1 column that applies
     fn direct(_h: &Self::H, _m: &MethodCtxC) -> Option<(String, Ctx)> {
@@ -2018,9 +2045,11 @@ impl HK for ContactK {
         params_diff(&mut d, "params", &o.params, &g.params);
         d
     }
+    fn method_ctx(m: &MethodCtxC) -> Ctx {
+        Ctx::of(&CtxC { uri: Some(UriCtxC::Contact), method: m.clone() })
+    }
     fn direct(h: &Contact, m: &MethodCtxC) -> Option<(String, Ctx)> {
-        let c = CtxC { uri: Some(UriCtxC::Contact), method: m.clone() };
-        Some((with_ctx(&CtxC { uri: None, method: m.clone() }, |p| h.print_ctx(p).to_string()), Ctx::of(&c)))
+        Some((with_ctx(&CtxC { uri: None, method: m.clone() }, |p| h.print_ctx(p).to_string()), Self::method_ctx(m)))
     }
     fn text_check(text: &str, o: &AddrParamsC, ctx: Ctx) -> Diffs {
         let mut d = check_name_addr_text_with_params(text, &o.addr, ctx);
@@ -2578,7 +2607,33 @@ fn insert_all<H: ExtendValues>(name: &Name, hs: &Vec<H>, one_by_one: bool) -> He
     headers
 }
 
-fn run_kind<K: HK>(out: &mut CaseOut, name: Name, items: &[K::M], one_by_one: bool, method: &MethodCtxC) {
+fn values_of(v: OneOrMore) -> Vec<BytesStr> {
+    match v {
+        OneOrMore::One(v) => vec![v],
+        OneOrMore::More(v) => v,
+    }
+}
+
+/// the header values of `hs` built through `ExtendValues` with the caller's print context (what a message
+/// printer that knows the method does), in the line layout of the case
+fn values_with_ctx<H: ExtendValues>(hs: &Vec<H>, one_by_one: bool, layout: u8, ctx: PrintCtx<'_>) -> Vec<BytesStr> {
+    if !one_by_one && layout == 0 {
+        return values_of(hs.create_values(ctx));
+    }
+    let mut values = hs[0].create_values(ctx);
+    for (i, h) in hs.iter().enumerate().skip(1) {
+        if layout >> ((i - 1) % 8) & 1 == 1 {
+            for v in values_of(h.create_values(ctx)) {
+                values.push(v);
+            }
+        } else {
+            h.extend_values(ctx, &mut values);
+        }
+    }
+    values_of(values)
+}
+
+fn run_kind<K: HK>(out: &mut CaseOut, name: Name, items: &[K::M], one_by_one: bool, method: &MethodCtxC, layout: u8) {
     let base = format!("c01.hdr.{}", K::LABEL);
     let hs: Vec<K::H> = items.iter().map(K::build).collect();
 
@@ -2670,6 +2725,45 @@ fn run_kind<K: HK>(out: &mut CaseOut, name: Name, items: &[K::M], one_by_one: bo
             }
         }
     }
+
+    // --- path 3: the whole list through ExtendValues (`create_values` / `extend_values`) with the print context
+    // of a message with a method: every item, whatever its position in the list or on its line, is printed for
+    // that method (Table 1 column of the method for every Contact of a REGISTER, not only the first one)
+    if *method != MethodCtxC::None {
+        let base = format!("c01.hdr.{}.ctx-values", K::LABEL);
+        let ctx = K::method_ctx(method);
+        let pc = CtxC { uri: None, method: method.clone() };
+        let values = with_ctx(&pc, |p| values_with_ctx(&hs, one_by_one, layout, p));
+        if items.len() >= 2 {
+            out.class(if values.len() == 1 { "ctx-values:one line" } else if values.len() == items.len() { "ctx-values:line per item" } else { "ctx-values:mixed lines" });
+        }
+        match parse_items::<K>(&values) {
+            Err((locus, msg)) => out.fail(format!("{base}/{locus}"), format!("{msg} (printed for {method:?})")),
+            Ok(parsed) if parsed.len() != items.len() => {
+                out.fail(format!("{base}/count"), format!("{} items printed for {method:?} as {values:?} parse back as {} items", items.len(), parsed.len()))
+            }
+            Ok(parsed) => {
+                for (i, (o, h)) in items.iter().zip(&parsed).enumerate() {
+                    let d = K::diff(o, &K::back(h, o), ctx);
+                    for (field, msg) in d {
+                        out.fail(format!("{base}/{field}"), format!("item {i} of {}, printed for {method:?} as {values:?}: {msg}", items.len()));
+                    }
+                }
+                let again = with_ctx(&pc, |p| values_with_ctx(&parsed, one_by_one, layout, p));
+                if again != values {
+                    out.fail(format!("{base}/fixpoint"), format!("{values:?} re-prints as {again:?}"));
+                }
+            }
+        }
+        let texts: Vec<String> = values.iter().flat_map(|v| rs::split_commas(v)).collect();
+        if texts.len() == items.len() {
+            for (i, (o, t)) in items.iter().zip(&texts).enumerate() {
+                for (field, msg) in K::text_check(t, o, ctx) {
+                    out.fail(format!("{base}/{field}"), format!("item {i} of {}, printed for {method:?}: {msg}", items.len()));
+                }
+            }
+        }
+    }
 }
 
 fn mark_addr(a: &NameAddrC, params: &[ParamC], ctx: Ctx, out: &mut CaseOut, nt: &mut bool) {
@@ -2742,7 +2836,7 @@ fn check_header(c: &HeaderCase, out: &mut CaseOut) {
                 mark_params(&x.params, out, &mut nt);
                 mark_token(&x.transport, out, &mut nt);
             }
-            run_kind::<ViaK>(out, Name::VIA, v, o, m)
+            run_kind::<ViaK>(out, Name::VIA, v, o, m, c.layout)
         }
         HeaderC::From(x) | HeaderC::To(x) => {
             let is_from = matches!(&c.h, HeaderC::From(_));
@@ -2751,7 +2845,7 @@ fn check_header(c: &HeaderCase, out: &mut CaseOut) {
             if let Some(t) = &x.tag {
                 mark_token(t, out, &mut nt);
             }
-            run_kind::<FromToK>(out, if is_from { Name::FROM } else { Name::TO }, std::slice::from_ref(x), false, m)
+            run_kind::<FromToK>(out, if is_from { Name::FROM } else { Name::TO }, std::slice::from_ref(x), false, m, c.layout)
         }
         HeaderC::Contact(v) => {
             out.class("kind:Contact");
@@ -2760,7 +2854,15 @@ fn check_header(c: &HeaderCase, out: &mut CaseOut) {
             for x in v {
                 mark_addr(&x.addr, &x.params, ctx, out, &mut nt);
             }
-            run_kind::<ContactK>(out, Name::CONTACT, v, o, m)
+            let method_dependent = |x: &AddrParamsC| !x.addr.uri.headers.is_empty() || x.addr.uri.params.iter().any(|p| p.name == "lr" || p.name == "ttl");
+            if v.iter().skip(1).any(method_dependent) {
+                out.class(match ctx {
+                    Ctx::ContactReg => "contact list, REGISTER: item after the first has uri headers / lr / ttl",
+                    Ctx::ContactDialog => "contact list, other method: item after the first has uri headers / lr / ttl",
+                    _ => "contact list, no method: item after the first has uri headers / lr / ttl",
+                });
+            }
+            run_kind::<ContactK>(out, Name::CONTACT, v, o, m, c.layout)
         }
         HeaderC::Route(v) | HeaderC::RecordRoute(v) => {
             let route = matches!(&c.h, HeaderC::Route(_));
@@ -2769,7 +2871,7 @@ fn check_header(c: &HeaderCase, out: &mut CaseOut) {
             for x in v {
                 mark_addr(&x.addr, &x.params, Ctx::Routing, out, &mut nt);
             }
-            run_kind::<RoutingK>(out, if route { Name::ROUTE } else { Name::RECORD_ROUTE }, v, o, m)
+            run_kind::<RoutingK>(out, if route { Name::ROUTE } else { Name::RECORD_ROUTE }, v, o, m, c.layout)
         }
         HeaderC::CSeq(x) => {
             out.class("kind:CSeq");
@@ -2777,7 +2879,7 @@ fn check_header(c: &HeaderCase, out: &mut CaseOut) {
                 out.class("method:wellknown-name+suffix");
                 nt = true;
             }
-            run_kind::<CSeqK>(out, Name::CSEQ, std::slice::from_ref(x), false, m)
+            run_kind::<CSeqK>(out, Name::CSEQ, std::slice::from_ref(x), false, m, c.layout)
         }
         HeaderC::RAck(x) => {
             out.class("kind:RAck");
@@ -2785,52 +2887,52 @@ fn check_header(c: &HeaderCase, out: &mut CaseOut) {
                 out.class("method:wellknown-name+suffix");
                 nt = true;
             }
-            run_kind::<RAckK>(out, Name::RACK, std::slice::from_ref(x), false, m)
+            run_kind::<RAckK>(out, Name::RACK, std::slice::from_ref(x), false, m, c.layout)
         }
         HeaderC::RSeq(x) => {
             out.class("kind:RSeq");
-            run_kind::<RSeqK>(out, Name::RSEQ, std::slice::from_ref(x), false, m)
+            run_kind::<RSeqK>(out, Name::RSEQ, std::slice::from_ref(x), false, m, c.layout)
         }
         HeaderC::CallId(x) => {
             out.class("kind:Call-ID");
-            run_kind::<CallIdK>(out, Name::CALL_ID, std::slice::from_ref(x), false, m)
+            run_kind::<CallIdK>(out, Name::CALL_ID, std::slice::from_ref(x), false, m, c.layout)
         }
         HeaderC::MaxForwards(x) => {
             out.class("kind:Max-Forwards");
-            run_kind::<MaxForwardsK>(out, Name::MAX_FORWARDS, std::slice::from_ref(x), false, m)
+            run_kind::<MaxForwardsK>(out, Name::MAX_FORWARDS, std::slice::from_ref(x), false, m, c.layout)
         }
         HeaderC::Expires(x) => {
             out.class("kind:Expires");
-            run_kind::<ExpiresK>(out, Name::EXPIRES, std::slice::from_ref(x), false, m)
+            run_kind::<ExpiresK>(out, Name::EXPIRES, std::slice::from_ref(x), false, m, c.layout)
         }
         HeaderC::MinExpires(x) => {
             out.class("kind:Min-Expires");
-            run_kind::<MinExpiresK>(out, Name::MIN_EXPIRES, std::slice::from_ref(x), false, m)
+            run_kind::<MinExpiresK>(out, Name::MIN_EXPIRES, std::slice::from_ref(x), false, m, c.layout)
         }
         HeaderC::MinSe(x) => {
             out.class("kind:Min-SE");
-            run_kind::<MinSeK>(out, Name::MIN_SE, std::slice::from_ref(x), false, m)
+            run_kind::<MinSeK>(out, Name::MIN_SE, std::slice::from_ref(x), false, m, c.layout)
         }
         HeaderC::SessionExpires(x) => {
             out.class("kind:Session-Expires");
-            run_kind::<SessionExpiresK>(out, Name::SESSION_EXPIRES, std::slice::from_ref(x), false, m)
+            run_kind::<SessionExpiresK>(out, Name::SESSION_EXPIRES, std::slice::from_ref(x), false, m, c.layout)
         }
         HeaderC::ContentLength(x) => {
             out.class("kind:Content-Length");
-            run_kind::<ContentLengthK>(out, Name::CONTENT_LENGTH, std::slice::from_ref(x), false, m)
+            run_kind::<ContentLengthK>(out, Name::CONTENT_LENGTH, std::slice::from_ref(x), false, m, c.layout)
         }
         HeaderC::ContentType(x) => {
             out.class("kind:Content-Type");
-            run_kind::<ContentTypeK>(out, Name::CONTENT_TYPE, std::slice::from_ref(x), false, m)
+            run_kind::<ContentTypeK>(out, Name::CONTENT_TYPE, std::slice::from_ref(x), false, m, c.layout)
         }
         HeaderC::Event(x) => {
             out.class("kind:Event");
-            run_kind::<EventK>(out, Name::EVENT, std::slice::from_ref(x), false, m)
+            run_kind::<EventK>(out, Name::EVENT, std::slice::from_ref(x), false, m, c.layout)
         }
         HeaderC::Accept(v) => {
             out.class("kind:Accept");
             list_class!(v);
-            run_kind::<AcceptK>(out, Name::ACCEPT, v, o, m)
+            run_kind::<AcceptK>(out, Name::ACCEPT, v, o, m, c.layout)
         }
         HeaderC::Allow(v) => {
             out.class("kind:Allow");
@@ -2839,28 +2941,28 @@ fn check_header(c: &HeaderCase, out: &mut CaseOut) {
                 out.class("method:wellknown-name+suffix");
                 nt = true;
             }
-            run_kind::<AllowK>(out, Name::ALLOW, v, o, m)
+            run_kind::<AllowK>(out, Name::ALLOW, v, o, m, c.layout)
         }
         HeaderC::AllowEvents(v) => {
             out.class("kind:Allow-Events");
             list_class!(v);
-            run_kind::<AllowEventsK>(out, Name::ALLOW_EVENTS, v, o, m)
+            run_kind::<AllowEventsK>(out, Name::ALLOW_EVENTS, v, o, m, c.layout)
         }
         HeaderC::Supported(v) => {
             out.class("kind:Supported");
             list_class!(v);
-            run_kind::<SupportedK>(out, Name::SUPPORTED, v, o, m)
+            run_kind::<SupportedK>(out, Name::SUPPORTED, v, o, m, c.layout)
         }
         HeaderC::Require(v) => {
             out.class("kind:Require");
             list_class!(v);
-            run_kind::<RequireK>(out, Name::REQUIRE, v, o, m)
+            run_kind::<RequireK>(out, Name::REQUIRE, v, o, m, c.layout)
         }
         HeaderC::Replaces(x) => {
             out.class("kind:Replaces");
             mark_token(&x.from_tag, out, &mut nt);
             mark_token(&x.to_tag, out, &mut nt);
-            run_kind::<ReplacesK>(out, Name::REPLACES, std::slice::from_ref(x), false, m)
+            run_kind::<ReplacesK>(out, Name::REPLACES, std::slice::from_ref(x), false, m, c.layout)
         }
         HeaderC::RetryAfter(x) => {
             out.class("kind:Retry-After");
@@ -2871,7 +2973,7 @@ fn check_header(c: &HeaderCase, out: &mut CaseOut) {
                 Some(c) if c.contains('(') => out.class("retry-after:nested comment"),
                 Some(_) => out.class("retry-after:comment"),
             }
-            run_kind::<RetryAfterK>(out, Name::RETRY_AFTER, std::slice::from_ref(x), false, m)
+            run_kind::<RetryAfterK>(out, Name::RETRY_AFTER, std::slice::from_ref(x), false, m, c.layout)
         }
         HeaderC::SubscriptionState(x) => {
             out.class("kind:Subscription-State");
@@ -2879,7 +2981,7 @@ fn check_header(c: &HeaderCase, out: &mut CaseOut) {
             if let Some(ReasonC::Other(t)) = &x.reason {
                 mark_token(t, out, &mut nt);
             }
-            run_kind::<SubStateK>(out, Name::SUBSCRIPTION_STATE, std::slice::from_ref(x), false, m)
+            run_kind::<SubStateK>(out, Name::SUBSCRIPTION_STATE, std::slice::from_ref(x), false, m, c.layout)
         }
         HeaderC::WwwAuthenticate(v) | HeaderC::ProxyAuthenticate(v) => {
             let www = matches!(&c.h, HeaderC::WwwAuthenticate(_));
@@ -2903,7 +3005,7 @@ fn check_header(c: &HeaderCase, out: &mut CaseOut) {
                 }
             }
             // always one header line per challenge
-            run_kind::<ChallengeK>(out, if www { Name::WWW_AUTHENTICATE } else { Name::PROXY_AUTHENTICATE }, v, true, m)
+            run_kind::<ChallengeK>(out, if www { Name::WWW_AUTHENTICATE } else { Name::PROXY_AUTHENTICATE }, v, true, m, c.layout)
         }
         HeaderC::Authorization(v) | HeaderC::ProxyAuthorization(v) => {
             let a = matches!(&c.h, HeaderC::Authorization(_));
@@ -2931,7 +3033,7 @@ fn check_header(c: &HeaderCase, out: &mut CaseOut) {
                     AuthRespC::Other { .. } => out.class("auth:other scheme"),
                 }
             }
-            run_kind::<AuthRespK>(out, if a { Name::AUTHORIZATION } else { Name::PROXY_AUTHORIZATION }, v, true, m)
+            run_kind::<AuthRespK>(out, if a { Name::AUTHORIZATION } else { Name::PROXY_AUTHORIZATION }, v, true, m, c.layout)
         }
     }
     if nt {
@@ -2989,17 +3091,39 @@ fn msg_header_name() -> BoxedStrategy<String> {
     .boxed()
 }
 
-/// TEXT-UTF8-TRIM: printable ASCII, LWS inside, UTF8-NONASCII; no CR/LF; trimmed; may be empty
+/// UTF8-NONASCII characters that are blank to the eye and/or to Unicode (`char::is_whitespace`: U+0085, U+00A0,
+/// U+1680, U+2000..U+200A, U+2028, U+2029, U+202F, U+205F, U+3000) or are commonly stripped with them (U+180E,
+/// U+200B, U+2060, U+FEFF). None of them is SIP LWS (SP / HTAB / CRLF): they are ordinary TEXT-UTF8 characters.
+const UNICODE_BLANKS: &[&str] = &[
+    "\u{85}", "\u{a0}", "\u{1680}", "\u{2000}", "\u{2002}", "\u{2003}", "\u{2007}", "\u{2009}", "\u{200a}", "\u{2028}", "\u{2029}", "\u{202f}", "\u{205f}", "\u{3000}",
+    "\u{180e}", "\u{200b}", "\u{2060}", "\u{feff}",
+];
+
+fn is_sip_lws(c: char) -> bool {
+    c == ' ' || c == '\t'
+}
+
+/// first / last character of a header value is non-ASCII and `char::is_whitespace`
+fn unicode_blank_edges(v: &str) -> (bool, bool) {
+    let edge = |c: Option<char>| c.map_or(false, |c| !c.is_ascii() && c.is_whitespace());
+    (edge(v.chars().next()), edge(v.chars().next_back()))
+}
+
+/// TEXT-UTF8-TRIM: printable ASCII, LWS inside, UTF8-NONASCII; no CR/LF; no SIP LWS (SP / HTAB) at either end;
+/// may be empty. UTF8-NONASCII includes the Unicode blanks above, and TEXT-UTF8-TRIM may begin and end with them.
 fn msg_header_value(max: usize) -> BoxedStrategy<String> {
     let atom = prop_oneof![
-        8 => "[a-zA-Z0-9]",
-        4 => "[!-~]",
-        2 => sel(&[" ", "\t", ", ", ";", "\"", "<sip:a@b>", "%41", ":"]),
-        1 => multibyte_char().prop_map(|c| c.to_string()),
+        16 => "[a-zA-Z0-9]",
+        8 => "[!-~]",
+        4 => sel(&[" ", "\t", ", ", ";", "\"", "<sip:a@b>", "%41", ":"]),
+        2 => multibyte_char().prop_map(|c| c.to_string()),
+        1 => sel(UNICODE_BLANKS),
     ];
+    let blanks = || prop_oneof![7 => Just(String::new()), 1 => vec(sel(UNICODE_BLANKS), 1..=2).prop_map(|v| v.concat())];
     prop_oneof![
         1 => Just(String::new()),
-        10 => len_range(max).prop_flat_map(move |n| vec(atom.clone(), n..=n)).prop_map(|v| v.concat().trim().to_string()),
+        10 => (blanks(), len_range(max).prop_flat_map(move |n| vec(atom.clone(), n..=n)), blanks())
+            .prop_map(|(pre, v, post)| format!("{pre}{}{post}", v.concat()).trim_matches(is_sip_lws).to_string()),
         3 => sel(&["SIP/2.0/UDP 192.0.2.1:5060;branch=z9hG4bK776asdhds", "\"Bob\" <sips:bob@biloxi.example.com>;tag=a73kszlfl", "1 INVITE", "application/sdp", "70", "<sip:p1.example.com;lr>, <sip:p2.example.com;lr>"]),
     ]
     .boxed()
@@ -3153,7 +3277,15 @@ fn compare_maps(want: &NameMap, got: &NameMap, sig: &str, who: &str, out: &mut C
                 let mut b = g.clone();
                 a.sort();
                 b.sort();
-                let locus = if a == b { "header-order" } else { "header-values" };
+                // a value that came back shorter at one of its ends (characters in front of / behind the value were cut)
+                let edge_cut = |w: &String, g: &String| w != g && w.len() > g.len() && (w.ends_with(g.as_str()) || w.starts_with(g.as_str()));
+                let locus = if a == b {
+                    "header-order"
+                } else if g.len() == vals.len() && vals.iter().zip(g).all(|(w, g)| w == g || edge_cut(w, g)) {
+                    "header-value-edge-cut"
+                } else {
+                    "header-values"
+                };
                 out.fail(format!("{sig}/{locus}"), format!("{who}: header {n:?} inserted as {vals:?}, read back as {g:?}"));
             }
             _ => {}
@@ -3187,6 +3319,19 @@ fn check_message(c: &MsgCase, out: &mut CaseOut) {
     }
     if c.headers.iter().any(|(n, _)| n.starts_with("X-")) {
         out.class("unknown name");
+    }
+    let edges: Vec<(bool, bool)> = c.headers.iter().map(|(_, v)| unicode_blank_edges(v)).collect();
+    if edges.iter().any(|e| e.0) {
+        out.class("value starts with a Unicode blank that is not SIP LWS");
+    }
+    if edges.iter().any(|e| e.1) {
+        out.class("value ends with a Unicode blank that is not SIP LWS");
+    }
+    if c.headers.iter().any(|(_, v)| !v.is_empty() && v.chars().all(|c| !c.is_ascii() && c.is_whitespace())) {
+        out.class("value made of Unicode blanks only");
+    }
+    if edges.iter().any(|e| e.0 || e.1) {
+        out.nontrivial(&key(c));
     }
     out.class(match c.body.len() {
         0 => "body:empty",
@@ -3318,7 +3463,9 @@ pub fn property() -> Property {
         rule: "Values are generated as serde mirror structs and converted through the public API. A case is non-trivial if it contains a character outside the \
                component's unreserved set, a literal '%', a multi-byte character (user, parameter names/values), a method token with a well-known name as proper prefix, \
                a print context that forces a Table-1 omission, a list header with >=2 items, an empty/non-ASCII quoted auth value, or a message with >=2 values under one \
-               header name; distinct = distinct JSON of the case.",
+               header name or with a header value that starts/ends with a non-ASCII Unicode blank (which is text, not SIP LWS); distinct = distinct JSON of the case. \
+               Typed headers are printed through Headers::insert_type (default context), directly per item for a method, and as a whole list through \
+               ExtendValues::create_values/extend_values with the method's print context in a generated line layout.",
         assumptions: vec![
             "display names, reason phrases and quoted auth values are qdtext (printer never escapes quotes); display names/reason phrases are non-empty and trim-invariant",
             "password is generated inside the RFC 3261 password grammar ('%' only as a well-formed escape): it is printed and parsed raw",
@@ -3326,7 +3473,8 @@ pub fn property() -> Property {
             "tags, Call-IDs, option tags, transports, reason values and auth parameter names stay inside their RFC grammar; Other(..) variants never carry a well-known name",
             "header-level params never use names the header keeps in dedicated fields (tag; expires/reason/retry-after)",
             "omission of the `method` URI parameter, Table-1 names written in another case, and a Contact printed without a method are accepted either way",
-            "message header names: names ezk documents (with its compact forms) or X-<token>; values are TEXT-UTF8-TRIM without CR/LF",
+            "message header names: names ezk documents (with its compact forms) or X-<token>; values are TEXT-UTF8-TRIM without CR/LF: no SP/HTAB at either end, but UTF8-NONASCII blanks (NBSP, NEL, U+2000.., U+3000 ...) anywhere including both ends",
+            "ExtendValues with a caller-supplied PrintCtx: only `method` is set (uri context None, the header sets its own); the spread of items over header lines is not asserted",
             "Retry-After comments are ctext (no backslash / quoted-pair), possibly empty or with one nested comment",
         ],
         explanation: "Exhaustive: all 65536 status codes (sub `code`). Everything else is sampled with proptest (16 shards); the class histogram shows the reach of the generators. \
